@@ -167,8 +167,9 @@ def app_from(ns, r, marks=None):
                     marks["invoked"] = marks.get("invoked", 0) + 1
                 if r.get("raise") == "before-start":
                     raise BodyError("app failed before start")
-                await send({"type": "http.response.start", "status": status,
-                            "headers": [(k.lower().encode("latin-1"), v.encode("latin-1")) for k, v in headers]})
+                hl = [(k.lower().encode("latin-1"), v.encode("latin-1")) for k, v in headers]
+                # the ASGI spec asks for an iterable of pairs: a one-shot iterator is legal
+                await send({"type": "http.response.start", "status": status, "headers": iter(hl) if r.get("headers_as_iterator") else hl})
                 if r.get("raise") == "after-start":
                     raise BodyError("app failed after start")
                 if shape in ("list", "tuple") and r.get("one_event", True):
@@ -288,11 +289,12 @@ def gen_response(rng, files=None, allow_sse=True, allow_raise=False):
 def gen_raw(rng):
     n = rng.choice([0, 1, 2, 3])
     hdrs = rng.choice([[], [("Content-Type", "text/plain")], [("Set-Cookie", "a=1"), ("Set-Cookie", "b=2")],
-                       [("X-A", "1"), ("X-A", "2"), ("x-b", "3")], [("X-Hop", "1"), ("X-Hop", "1")], [("Vary", "Accept"), ("Vary", "Accept"), ("Vary", "Origin")], [("Content-Type", "text/plain"), ("Set-Cookie", "a=1; Path=/"), ("Set-Cookie", "b=2; HttpOnly")]])
+                       [("X-A", "1"), ("X-A", "2"), ("x-b", "3")], [("X-Hop", "1"), ("X-Hop", "1")], [("Set-Cookie", "n=caf\xe9; Path=/"), ("Vary", "Accept")],
+                       [("Set-Cookie", "a=\xfc"), ("Set-Cookie", "b=2"), ("vary", "Cookie")], [("Vary", "Accept"), ("Vary", "Accept"), ("Vary", "Origin")], [("Content-Type", "text/plain"), ("Set-Cookie", "a=1; Path=/"), ("Set-Cookie", "b=2; HttpOnly")]])
     return {"app": "raw", "status": rng.choice([200, 201, 404, 418, 599]), "headers": hdrs,
             "chunks": [rng.choice([b"hello", b"world", b"", b"\x00\xff"]) for _ in range(n)],
             "shape": rng.choice(["list", "tuple", "generator", "closing"]), "one_event": rng.random() < 0.5, "minimal_last": rng.random() < 0.3,
-            "restart": rng.random() < 0.15}
+            "restart": rng.random() < 0.15, "headers_as_iterator": rng.random() < 0.3}
 
 
 RANGE_HEADERS = [None, "bytes=0-0", "bytes=1-3", "bytes=-2", "bytes=2-", "bytes=0-1,3-4", "bytes=0-1,1-2", "bytes=9999-", "bytes=3-1", "items=0-1", "", "bytes=1-5",
